@@ -396,14 +396,15 @@ def set_mode(script, mode: str, rnd):
         script["valid"][d] = False
 
 
-def exhaustive_scripts(env: Env, n=4):
+def exhaustive_scripts(env: Env, n=4, alternate_safe=False):
     """all f : n -> n for the multi-run phase x start state x (safe, keep, mode); the other stages
-    get tables from a PRNG seeded by the case index (seed independent)."""
+    get tables from a PRNG seeded by the case index (seed independent).  alternate_safe: `safe`
+    (which only feeds the preserve set) alternates with the case instead of being crossed."""
     multi_names = sorted(set(env.multi_names) - {"fixes.fix_too_many_blank_lines"})
     idx = 0
-    for f in itertools.product(range(n), repeat=n):
+    for fi, f in enumerate(itertools.product(range(n), repeat=n)):
         for start in range(n):
-            for safe in (False, True):
+            for safe in (((fi + start) % 2 == 1,) if alternate_safe else (False, True)):
                 for keep in (False, True):
                     for mode in ("top", "frag"):
                         rnd = random.Random(1000003 * idx + 17)
@@ -597,7 +598,7 @@ def format_code_correspondence(mods, wd: Path, tier: str, seed: int, part: str =
     res["unknown_stage_attrs"] = unknown
     rnd = random.Random(seed)
     scripts = []
-    exh = list(exhaustive_scripts(env))
+    exh = list(exhaustive_scripts(env, alternate_safe=(part == "loops")))
     if part == "light":
         k = 4
         exh = [s for i, s in enumerate(exh) if i % k == seed % k]
@@ -804,6 +805,9 @@ def format_file_row_problems(rows) -> list[dict]:
 # format_files with format_file scripted (contents are state numbers)
 
 
+_LAYOUTS: dict = {}
+
+
 class _SerialPool:
     def __init__(self, *a, **k):
         pass
@@ -824,7 +828,9 @@ def files_cases(rnd: random.Random, nrand: int, M: int):
     # exhaustive: 2 folders, 1+1 or 2+1 files, contents in 3 states, tables 3->3 (sampled by index)
     tabs3 = list(itertools.product(range(3), repeat=3))
     for mp in (0, 1, 2, M):
-        for t0, t1 in itertools.product(tabs3, repeat=2):
+        for k, (t0, t1) in enumerate(itertools.product(tabs3, repeat=2)):
+            if mp in (0, 2) and k % 4:
+                continue
             cases.append((mp, [[(0, 0)], [(1, 0)]], [list(t0), list(t1)]))
     for mp in (1, M):
         for i, (t0, t1, t2) in enumerate(itertools.product(tabs3[::2], tabs3[::3], tabs3[1::4])):
@@ -851,16 +857,25 @@ def files_cases(rnd: random.Random, nrand: int, M: int):
 def run_format_files(mods, wd: Path, case, real_pool=False) -> dict:
     main = mods["main"]
     mp, folders, tbs = case
-    root = Path(tempfile.mkdtemp(dir=wd))
-    paths, order = {}, []
-    # folder names chosen so that sorted(path) order is NOT the folder order
-    for k, fl in enumerate(folders):
-        d = root / f"d{(7 * k + 3) % 10}{k}"
-        d.mkdir()
+    # one directory tree per folder layout, reused (contents rewritten) across cases
+    key = tuple(tuple(fid for fid, _ in fl) for fl in folders)
+    cache = _LAYOUTS.setdefault(str(wd), {})
+    if key not in cache:
+        root = Path(tempfile.mkdtemp(dir=wd))
+        paths = {}
+        # folder names chosen so that sorted(path) order is NOT the folder order
+        for k, fl in enumerate(folders):
+            d = root / f"d{(7 * k + 3) % 10}{k}"
+            d.mkdir()
+            for fid, _ in fl:
+                paths[fid] = d / f"f{(5 * fid + 2) % 7}_{fid}.py"
+        cache[key] = (root, paths)
+    root, paths = cache[key]
+    for fl in folders:
         for fid, init in fl:
-            p = d / f"f{(5 * fid + 2) % 7}_{fid}.py"
-            p.write_text(str(init))
-            paths[fid] = p
+            paths[fid].write_text(str(init))
+    if (root / "calls.log").exists():
+        (root / "calls.log").unlink()
     fid_of = {str(p): fid for fid, p in paths.items()}
     log = root / "calls.log"
     passes: list[list[int]] = []
